@@ -15,7 +15,8 @@ Harness-level *actions* (json-able lists) and the model ops (coq/lib/Refs.v) the
                                so _handleRefLost stays pending)        -> DropProxy p
   ["home", p, iscall]          H sends proxy p back to O as an argument, or calls through it
                                                                        -> SendHome p iscall
-  ["lost"]                     both ends see connectionLost            -> ConnLost
+  ["lost", how]                the connection is given up: both ends see connectionLost, or one / both Brokers shut
+                               down / time out over a transport that never reports the loss    -> ConnLost
 Every action that runs the eventual queue is followed by one HandleRefLost per pending _handleRefLost.
 """
 import gc, weakref
@@ -452,12 +453,35 @@ class World:
         self.H.notifyOnDisconnect(holder_side)
         return [], None
 
-    def a_lost(self):
+    LOST_HOW = ("connectionLost", "shutdown", "timeout", "owner-shutdown", "holder-shutdown")
+
+    def a_lost(self, how="connectionLost"):
+        """the connection is given up.  how: both transports report the loss (connectionLost); or one / both Brokers give the
+        connection up themselves -- Broker.shutdown() (what Tub.stopService and duplicate-connection handling call) or the
+        inactivity timer (connectionTimedOut) -- over a transport that NEVER reports the loss back (the peer host vanished: the
+        write buffer never drains; QT.loseConnection is a no-op), the other side then sees connectionLost.  From the moment a
+        Broker considers itself disconnected it must have forgotten everything."""
         if self.lost:
             return [], None
         self.lost = True
-        self.O.connectionLost(failure.Failure(ConnectionLost()))
-        self.H.connectionLost(failure.Failure(ConnectionLost()))
+        why = failure.Failure(ConnectionLost())
+        if how == "shutdown":
+            self.O.shutdown(why)
+            self.H.shutdown(why)
+        elif how == "timeout":
+            self.O.connectionTimedOut()
+            self.H.connectionTimedOut()
+        elif how == "owner-shutdown":
+            self.O.shutdown(why)
+            self.H.connectionLost(why)
+        elif how == "holder-shutdown":
+            self.H.shutdown(why)
+            self.O.connectionLost(why)
+        else:
+            self.O.connectionLost(why)
+            self.H.connectionLost(why)
+        if not (self.O.disconnected and self.H.disconnected):
+            self.problems.append(("oracle/table-survives-connection-loss", "after %s a Broker does not consider itself disconnected" % how))
         self.tO.q = []; self.tH.q = []
         self.inflight = []; self.inflight_ho = []
         self.turn_dead()
@@ -614,6 +638,8 @@ def gen_and_run(rng, profile, nsteps):
                 a.append(rng.choice(["only", "call"]))
         elif k == "arm":
             a = ["arm", [rng.choice(objs) for j in range(rng.choice([1, 2]))], rng.choice(["only", "call"])]
+        elif k == "lost":
+            a = ["lost", rng.choice(World.LOST_HOW)]
         else:
             a = [k]
         rec.do(a)
